@@ -18,10 +18,13 @@ struct Kind {
     id: i32,
     body: Vec<u8>,
     honest_enc: bool,
+    /// an Encryption Response with a valid RSA layer whose verify token is cut to this many bytes
+    /// (usize::MAX: the token extended by extra bytes); needs the issued token like the honest one
+    bad_token: Option<usize>,
 }
 
 fn kinds() -> Vec<Kind> {
-    let k = |name: &'static str, id: i32, body: Vec<u8>| Kind { name, id, body, honest_enc: false };
+    let k = |name: &'static str, id: i32, body: Vec<u8>| Kind { name, id, body, honest_enc: false, bad_token: None };
     let hs = |next: i32| W::new().varint(769).string("mc.example.org").u16(25565).varint(next).done();
     vec![
         k("handshake-status", 0, hs(1)),
@@ -35,7 +38,11 @@ fn kinds() -> Vec<Kind> {
         k("ping-42", 1, W::new().u64(42).done()),
         k("ping-max", 1, W::new().u64(u64::MAX).done()),
         k("login-start", 0, W::new().string(NAME1).u128(UUID1).done()),
-        Kind { name: "encryption-response-honest", id: 1, body: vec![], honest_enc: true },
+        Kind { name: "encryption-response-honest", id: 1, body: vec![], honest_enc: true, bad_token: None },
+        Kind { name: "encryption-response-token-empty", id: 1, body: vec![], honest_enc: false, bad_token: Some(0) },
+        Kind { name: "encryption-response-token-16-of-32-bytes", id: 1, body: vec![], honest_enc: false, bad_token: Some(16) },
+        Kind { name: "encryption-response-token-31-of-32-bytes", id: 1, body: vec![], honest_enc: false, bad_token: Some(31) },
+        Kind { name: "encryption-response-token-extended", id: 1, body: vec![], honest_enc: false, bad_token: Some(usize::MAX) },
         k("encryption-response-garbage", 1, W::new().bytes(&[1u8; 128]).bytes(&[2u8; 128]).done()),
         k("login-plugin-response", 2, W::new().varint(0).bool(false).done()),
         k("id3-empty(login-ack/ack-finish)", 3, vec![]),
@@ -210,7 +217,7 @@ fn predict(hist: &[Kind], cfg: &Cfg) -> Vec<Pred> {
             }
             St::StReq => (if k.id == 0 { if k.body.is_empty() { Dec::Yes } else { Dec::Ambiguous } } else { Dec::No }, St::StPing, vec![Exp::StatusResponse]),
             St::StPing => {
-                if k.id == 1 && k.body.len() >= 8 && !k.honest_enc {
+                if k.id == 1 && k.body.len() >= 8 && !k.honest_enc && k.bad_token.is_none() {
                     let p = u64::from_be_bytes(k.body[..8].try_into().unwrap());
                     (if k.body.len() == 8 { Dec::Yes } else { Dec::Ambiguous }, St::Hand, vec![Exp::Pong(p)])
                 } else {
@@ -261,7 +268,17 @@ fn build(hist: &[Kind], cfg: &Cfg) -> Case {
     }
     case.script = hist
         .iter()
-        .map(|k| st(When::Idle, if k.honest_enc { Act::EncResponse(EncKind::Honest) } else { Act::Frame { id: k.id, body: k.body.clone() } }))
+        .map(|k| {
+            st(
+                When::Idle,
+                match (k.honest_enc, k.bad_token) {
+                    (true, _) => Act::EncResponse(EncKind::Honest),
+                    (_, Some(usize::MAX)) => Act::EncResponse(EncKind::TokenExtended(4)),
+                    (_, Some(n)) => Act::EncResponse(EncKind::TokenPrefix(n)),
+                    _ => Act::Frame { id: k.id, body: k.body.clone() },
+                },
+            )
+        })
         .collect();
     // the first frame decides the phase in which the client decodes
     if let Some(k) = hist.first() {
@@ -402,6 +419,9 @@ pub fn run(cli: Cli) -> ! {
             }
         }
     }
+    // routing that completes 1-4 s before a keep-alive tick (whatever follows the Transfer would show)
+    cfgs.push(Cfg { secret: true, status: "minimal", disc_ms: 12_000, one_byte: false });
+    cfgs.push(Cfg { secret: false, status: "minimal", disc_ms: 15_000, one_byte: false });
     if !thorough {
         cfgs.push(Cfg { secret: true, status: "minimal", disc_ms: 17_000, one_byte: false });
     } else {
@@ -457,7 +477,7 @@ pub fn run(cli: Cli) -> ! {
                 // static 'garbage' response stands for the same wire shape)
                 let at_enc = predict(h, cfg).iter().any(|p| p.end == End::Waiting && p.outs.last() == Some(&Exp::EncReq));
                 for k in &all_kinds {
-                    if k.honest_enc && !at_enc {
+                    if (k.honest_enc || k.bad_token.is_some()) && !at_enc {
                         continue;
                     }
                     let mut c = h.clone();
